@@ -63,6 +63,8 @@ REQUIRE = {
     "directed:46b965d-history": 300,
     "op:set_encoding-after-construction": 400,
     "directed:c084bec": 40,
+    "directed:resize-back": 300,
+    "resize_back_to_the_width_of_a_stored_preference": 200,
     "directed:ba58766": 500,
     "directed:e0fc36b": 30,
     "directed:9a21b78": 100,
@@ -103,7 +105,9 @@ ASSUMES = [
     "offset of the row is accepted; offsets falling into the caption map to edit offset 0; home/end = first/last position "
     "of the display row and make the preferred column leftmost/rightmost (documented in get_pref_col)",
     "preferred column after a click: the clicked column or the landing column (either accepted); after a resize: "
-    "the current column",
+    "the current column; after resizing BACK to the width a preference was made at, that preference or the current "
+    "column (the widget stores one (preference, width) pair and the statement does not say which one 'keeping the "
+    "preferred column' means there)",
     "a used key that cannot act (left at 0, up on the first row, backspace at 0 ...) leaves the state unchanged; "
     "its return value is not judged (statement only fixes it for keys the editor does not use)",
     "'tab' with allow_tab inserts 1..8 spaces (documented range; exact count not judged)",
@@ -489,6 +493,7 @@ class Session:
         w = self.w
         self.init_text = w.edit_text
         self.model = R.Editor(w.edit_text, w.edit_pos, self.cs, self.caplen, d["multiline"], d["allow_tab"], self.numeric)
+        self.pref_stash = None
         urwid.connect_signal(w, "change", self._on_change)
         urwid.connect_signal(w, "postchange", self._on_postchange)
         self.check_state("init")
@@ -814,8 +819,20 @@ class Session:
         elif kind == "resize":
             self.opname = "resize"
             if (op[1],) != self.size:
+                # the preferred column belongs to a width: at another width the current column counts.  The widget keeps
+                # ONE (preference, width) pair, so when the width comes back to the one the preference was made at (and
+                # possibly nothing overwrote the pair meanwhile) "keeping the preferred column" may also mean that one:
+                # both readings are accepted then.
+                old_prefs = self.model.prefs
+                if old_prefs is None or old_prefs != frozenset([None]):
+                    self.pref_stash = (self.size, old_prefs)
                 self.size = (op[1],)
-                self.model.prefs = frozenset([None])  # preferred column belongs to a width
+                stash = getattr(self, "pref_stash", None)
+                if stash is not None and stash[0] == self.size:
+                    sink.count("resize_back_to_the_width_of_a_stored_preference")
+                    self.model.prefs = None if stash[1] is None else frozenset([None]) | stash[1]
+                else:
+                    self.model.prefs = frozenset([None])
         elif kind == "setenc":
             # the application switches the active encoding while the widget lives (text must be ASCII at this point)
             self.opname = "setenc"
@@ -1172,6 +1189,16 @@ def directed_descs():
         yield "786c2fa", _num("IntegerEdit", K("ı", "ſ", "ﬆ", "ﬅ", "z", "Z", "²", "５"), form="kw", neg=False, base=base, default=15)
     yield "786c2fa", _num("IntEdit", K("²", "５", "٣", "7"), form="pos", default=4)
     yield "786c2fa", _num("FloatEdit", K("²", "５", "٣", "7", "."), form="kw", sep=".", preserve=True, neg=False)
+    # the preferred column across resizes: a preference made at one width, renders / keys at another width, back again
+    for text, w1 in (("abc def ghi", 4), (".5.", 1), ("ab\ncdef\ng", 5), ("abcdefghij", 3)):
+        for setter in (K("end"), K("home"), K("end", "left"), [["click", 1, 1, 1, True]]):
+            for w2 in (w1 + 3, w1 + 9, max(1, w1 - 2)):
+                if w2 == w1:
+                    continue
+                for mid in ([], K("left"), K("up"), K("right", "down")):
+                    for tail in (K("down", "up"), K("up", "down", "down")):
+                        ops = K("end") + setter + K("up") + [["resize", w2]] + mid + [["resize", w1]] + tail
+                        yield "resize-back", _plain("utf-8", False, "", text, w1, ops, multiline=True)
 
 
 # ------------------------------------------------------------------ driver
